@@ -152,7 +152,7 @@ def main():
         }],
         "checks": checks,
         "not_applicable": [{"property_id": p["id"], "reason": NA.get(p["id"], DEFAULT_NA)} for p in props if p["id"] not in CLAIMS],
-        "notes": "See DESIGN.md. Exit 2 of a check means the machinery could not reach a verdict (never a statement about the code).",
+        "notes": "See DESIGN.md (section 12 = as built). Exit 2 of a check means the machinery could not reach a verdict (never a statement about the code). Beyond the listed properties the specification also covers schema agreement and the metadata caches (bin/check X01: SchemaAgree.tla, SchemaMeta.tla) and the result-consumption / query-handle API (bin/check X02: Consume.tla, QueryLife.tla); their evidence is written to ext/evidence/. Independently seeded breaking changes with demonstrations and the checks' verdicts on them: seeded/ and notes/SEEDS.md; bin/selftest demonstrates the binding (corrupted traces rejected, removed hook noticed).",
     }
     json.dump(m, open(os.path.join(VERIF, "MANIFEST.json"), "w"), indent=1)
     print("MANIFEST.json: %d checks, %d not_applicable" % (len(checks), len(m["not_applicable"])))
